@@ -34,7 +34,7 @@ type engTarget struct {
 	K        int
 	Helper   bool
 	Always   bool
-	Style    int // 0 plain def, 1 closure, 2 default argument
+	Style    int // 0 plain def, 1 closure, 2 default argument, 3 two closures of one definition, 4 plain def whose body reads its lists from a manifest
 	Cosmetic int
 }
 
@@ -105,6 +105,12 @@ func (p *engProject) kval(t *engTarget) int {
 
 func (p *engProject) command(t *engTarget) string {
 	in := p.inputs(t)
+	if t.Style == 4 {
+		// the body finds its outputs and inputs in a manifest that is not part of the function's environment (a body
+		// that works on "whatever is declared", as one using self.sources / self.dependencies or a directory listing
+		// does): an edit of the dependency, source or output LISTS then changes no function environment
+		return strings.Join([]string{"sh", relTo(t.Pkg, "body.sh"), relTo(t.Pkg, "."), p.label(t.ID), "%d", "@" + t.Name}, " ")
+	}
 	parts := []string{"sh", relTo(t.Pkg, "body.sh"), relTo(t.Pkg, "."), p.label(t.ID), "%d", strconv.Itoa(len(t.Gens))}
 	for _, g := range t.Gens {
 		parts = append(parts, relTo(t.Pkg, p.Paths[g]))
@@ -113,6 +119,18 @@ func (p *engProject) command(t *engTarget) string {
 		parts = append(parts, relTo(t.Pkg, p.Paths[i]))
 	}
 	return strings.Join(parts, " ")
+}
+
+// manifest lists what a style-4 body works on: the number of outputs, the outputs, the inputs (relative to the package)
+func (p *engProject) manifest(t *engTarget) string {
+	lines := []string{strconv.Itoa(len(t.Gens))}
+	for _, g := range t.Gens {
+		lines = append(lines, relTo(t.Pkg, p.Paths[g]))
+	}
+	for _, i := range p.inputs(t) {
+		lines = append(lines, relTo(t.Pkg, p.Paths[i]))
+	}
+	return strings.Join(lines, "\n") + "\n"
 }
 
 // envKey is the semantic text of t's function environment: equal keys <=> same model environment number.
@@ -173,7 +191,7 @@ func (p *engProject) render(root string) error {
 				val = kexpr + " * 100 + helper()"
 			}
 			switch t.Style {
-			case 0:
+			case 0, 4:
 				// references a self-recursive function defined further down the file
 				fmt.Fprintf(&m, "def %s_fn():\n    sh.exec(%s %% (%s + rec(2)))   # c%d\n\n", t.Name, cmd, val, t.Cosmetic)
 			case 1:
@@ -246,6 +264,15 @@ func (p *engProject) render(root string) error {
 	if err := os.WriteFile(filepath.Join(root, "cfg.dawn"), []byte(cfg.String()), 0644); err != nil {
 		return err
 	}
+	os.RemoveAll(filepath.Join(root, ".manifest"))
+	for _, id := range ids {
+		if t := p.Targets[id]; t.Style == 4 {
+			os.MkdirAll(filepath.Join(root, ".manifest"), 0755)
+			if err := os.WriteFile(filepath.Join(root, ".manifest", t.Name), []byte(p.manifest(t)), 0644); err != nil {
+				return err
+			}
+		}
+	}
 	// the helper's environment holds a set and a dict of long strings (hash-ordered containers must be pickled in a
 	// process-independent order)
 	// ... and a dict whose ENTRY ORDER matters to the helper (a reordering is an edit of what the function references)
@@ -262,6 +289,10 @@ func (p *engProject) render(root string) error {
 const engBodySh = `#!/bin/sh
 # usage: body.sh <root> <label> <k> <noutputs> outputs... inputs...
 root=$1; label=$2; k=$3; n=$4; shift 4
+case "$n" in @*)
+  # outputs and inputs come from a manifest: first line the number of outputs, then one path per line
+  mf="$root/.manifest/${n#@}"; n=$(head -n 1 "$mf"); set -- $(tail -n +2 "$mf");;
+esac
 echo "$label" >> "$root/.exec.log"
 case ",$VERIF_FAILRM," in *",$label,"*) rm -rf "$root/.dawn/build/temp"; printf 'body of %s fails' "$label" >&2; exit 1;; esac
 case ",$VERIF_FAIL," in *",$label,"*) printf 'body of %s fails' "$label" >&2; exit 1;; esac
